@@ -135,7 +135,7 @@ func Run(id string, start time.Time) int {
 	for _, s := range seeds {
 		rn.corpus[h.Hash(string(s.Data))] = true
 	}
-	nIn := len(seeds) + h.Pick(8000, 80000)
+	nIn := len(seeds) + h.Pick(7000, 80000)
 	nCLI := NCLI(len(seeds))
 
 	if d, err := strconv.Atoi(os.Getenv("P16_DEBUG_N")); err == nil { // debugging aid only
@@ -165,7 +165,7 @@ func Run(id string, start time.Time) int {
 			"the CPU limit (" + strconv.Itoa(cpuLimitSec) + " s CPU time per CLI invocation / per in-process input) is more than two orders of magnitude above the slowest benign case",
 			"native go test -fuzz (coverage guided) is not part of this check",
 		},
-		MinEvents: int64(h.Pick(6000, 60000)), EventsKey: "inproc_inputs_started",
+		MinEvents: int64(h.Pick(5000, 60000)), EventsKey: "inproc_inputs_started",
 		Extra: map[string]any{"cpu_limit_s": cpuLimitSec, "memory_limit_kib": memLimitKB, "documented_exit_codes": "0,1,50,100-110,200-207"},
 	}, rn.part)
 }
@@ -262,7 +262,7 @@ func (rn *runner) cli(inputs []Input) {
 		name2 := "default"
 		var reqs []string
 		for _, n := range in.Requests {
-			if cliOK(n) && len(n) < 1000 {
+			if cliOK(n) && len(n) <= 6000 {
 				reqs = append(reqs, n)
 			}
 		}
@@ -332,7 +332,7 @@ func (rn *runner) cli(inputs []Input) {
 					sig, what, res = sig1, what1, res1
 				}
 			}
-			rn.violation(sig, fmt.Sprintf("task %q on a mutant of %s (%v): %s", args, in.SeedName, in.Muts, what), func() map[string]string {
+			rn.violation(sig, fmt.Sprintf("task %s on a mutant of %s (%v): %s", h.Truncate(fmt.Sprintf("%q", args), 200), in.SeedName, in.Muts, what), func() map[string]string {
 				return rn.witness(in, map[string]any{"channel": "cli", "argv": append([]string{"task"}, args...), "env": env, "exit": res.Exit, "signal": res.Signal,
 					"cpu_ms": res.CPU.Milliseconds(), "stdout": h.Truncate(res.Stdout, 2000), "stderr": h.Truncate(res.Stderr, 12000)})
 			})
@@ -443,7 +443,7 @@ func (rn *runner) inproc(inputs []Input) {
 							what += fmt.Sprintf(" [alone in a fresh child: completed=%v signature=%q]", done2, sig2)
 						}
 					}
-					rn.violation(sig, fmt.Sprintf("in-process %s on a mutant of %s (%v): %s", stage, in.SeedName, in.Muts, what), func() map[string]string {
+					rn.violation(sig, fmt.Sprintf("in-process %s on a mutant of %s (%v): %s", h.Truncate(stage, 100), in.SeedName, in.Muts, what), func() map[string]string {
 						return rn.witness(in, map[string]any{"channel": "inproc", "stage": stage, "requests": in.Requests, "exit": res.Exit, "signal": res.Signal, "stderr": h.Truncate(res.Stderr, 12000), "isolation_replay": iso})
 					})
 				}
